@@ -34,6 +34,7 @@ type subCfg struct {
 }
 
 type subScn struct {
+	ld    lateDial
 	el    time.Duration // virtual time elapsed (absolute "advto" steps of TLC-generated scenarios)
 	s     *sim.S
 	cfg   subCfg
@@ -131,6 +132,15 @@ func (c *subScn) step(st string) {
 		p := s.Net.NewPipe(fmt.Sprintf("p%d", c.npipe))
 		c.pipes[p.Name] = p
 		s.Net.Listener("l1").Offer(p)
+	case "predial":
+		c.ld.predial(s, c.sock)
+	case "ansconn":
+		if c.ld.pending(s) {
+			c.npipe++
+			p := s.Net.NewPipe(fmt.Sprintf("p%d", c.npipe))
+			c.pipes[p.Name] = p
+			c.ld.answer(s, p)
+		}
 	case "drop":
 		if p := c.pipes[arg(1)]; p != nil && !p.IsClosed() {
 			s.Rec.Emit("drop", "p", p.Name)
@@ -261,6 +271,7 @@ func runSub(t *testing.T, cfg subCfg) sim.Result {
 			c.step(st)
 		}
 		c.step("sclose")
+		c.ld.finish(s)
 		c.step("adv 600s")
 		s.Wait()
 		g := sim.Census()
@@ -282,6 +293,10 @@ func subScripted() []subCfg {
 	sec := time.Second
 	z := []time.Duration{0, 0, 0}
 	return []subCfg{
+		// a connection attempt that completes after the socket was closed is refused by the closed protocol (nothing of the
+		// closed socket remains); one that completes while the socket is open is a connection like any other
+		{NCtx: 2, QLen: []int{4, 4}, RecvExp: []time.Duration{0, 0}, Steps: []string{"predial", "sclose", "ansconn", "adv 1s"}},
+		{NCtx: 2, QLen: []int{4, 4}, RecvExp: []time.Duration{0, 0}, Steps: []string{"conn", "predial", "sub c0 -", "ansconn", "pub p2 6162", "recv c0", "pub p1 61", "recv c0", "sclose"}},
 		// empty topic matches everything; no subscription matches nothing; prefix semantics
 		{NCtx: 3, QLen: []int{4, 4, 4}, RecvExp: z, Steps: []string{"conn", "sub c0 -", "sub c1 6162", "pub p1 61", "pub p1 6162", "pub p1 616263", "pub p1 -", "pub p1 62", "recv c0", "recv c0", "recv c1", "recv c1", "recv c2", "recv c1", "pub p1 6162ff", "recv c0", "recv c0", "recv c0"}},
 		// overlapping subscriptions and unsubscribe pruning
